@@ -8,6 +8,7 @@ TB = ("Trusted: Lean 4.33 kernel; axioms propext/Quot.sound/Classical.choice onl
 ALL = ["C%02d" % i for i in range(1, 21)]
 PENDING_REASON = "check not built yet (model/theorems/correspondence pending); see DESIGN.md section 6 build order"
 NA = {}      # property -> reason, for properties deliberately not claimed
+HOLD = {"C16": "check built (model, theorems, harness) but being re-aligned with six fix: commits just applied to /repo; not registered until it is green on the repaired tree"}
 
 
 def collect():
@@ -18,6 +19,9 @@ def collect():
             continue
         mod = importlib.import_module("vlib.props." + pid.lower())
         c = getattr(mod, "CLAIM", None)
+        if pid in HOLD:
+            NA[pid] = HOLD[pid]
+            continue
         if c:
             c = dict(c)
             c["note"] = TB + c["note"]
